@@ -8,6 +8,7 @@ import (
 	"crypto/x509"
 	"encoding/base64"
 	"fmt"
+	"math/big"
 	"net"
 	"os"
 	"path/filepath"
@@ -338,3 +339,15 @@ func CaKeyId(caDer []byte) string {
 }
 
 var _ = ed25519.PrivateKey{}
+
+// SelfSignedCert returns a self-signed certificate for k.
+func SelfSignedCert(k *CertKey, name string) []byte {
+	tmpl := &x509.Certificate{AuthorityKeyId: k.Pkix, SubjectKeyId: k.Pkix, ExtKeyUsage: []x509.ExtKeyUsage{x509.ExtKeyUsageClientAuth, x509.ExtKeyUsageServerAuth},
+		DNSNames: []string{name}, KeyUsage: x509.KeyUsageDigitalSignature | x509.KeyUsageCertSign, SerialNumber: big.NewInt(11),
+		NotBefore: time.Now().Add(-24 * time.Hour), NotAfter: time.Now().Add(24 * time.Hour * 3650), BasicConstraintsValid: true, IsCA: true}
+	der, err := x509.CreateCertificate(DetRand("selfsigned:"+k.Name), tmpl, tmpl, k.Pub, k.Priv)
+	if err != nil {
+		panic(err)
+	}
+	return der
+}
